@@ -10,15 +10,36 @@ REPO = os.environ.get("VERIF_REPO", "/repo")
 class ToolError(Exception):
     pass
 
+def _harness_dir():
+    """The harness crate used for this run: /verif/harness for /repo itself; for a scratch tree
+    (env VERIF_REPO, development/mutation testing only) a private copy whose path dependency
+    points at that tree, so that concurrent experiments never touch /repo."""
+    global VH
+    if os.path.abspath(REPO) == "/repo":
+        return HARNESS
+    import hashlib
+    h = hashlib.md5(os.path.abspath(REPO).encode()).hexdigest()[:8]
+    d = os.path.join(ROOT, "work", "harness-" + h)
+    os.makedirs(os.path.join(d, "src"), exist_ok=True)
+    os.makedirs(os.path.join(d, ".cargo"), exist_ok=True)
+    for fn in ("Cargo.lock", "src/main.rs", "src/history.rs", ".cargo/config.toml"):
+        shutil.copyfile(os.path.join(HARNESS, fn), os.path.join(d, fn))
+    toml = open(os.path.join(HARNESS, "Cargo.toml")).read().replace('path = "/repo/rsass"', f'path = "{os.path.abspath(REPO)}/rsass"')
+    with open(os.path.join(d, "Cargo.toml"), "w") as f:
+        f.write(toml)
+    VH = os.path.join(d, "target", "release", "vh")
+    return d
+
 def build(cli=False):
     """cargo build --offline of the harness (path dependency on /repo/rsass, cfg kaj_rsass_verif)."""
     env = dict(os.environ, CARGO_NET_OFFLINE="true")
-    p = subprocess.run(["cargo", "build", "--release", "--offline"], cwd=HARNESS, env=env,
+    hd = _harness_dir()
+    p = subprocess.run(["cargo", "build", "--release", "--offline"], cwd=hd, env=env,
                        capture_output=True, text=True)
     if p.returncode != 0:
-        raise ToolError("harness build failed (does /repo still compile?):\n" + p.stderr[-4000:])
+        raise ToolError("harness build failed (does the rsass tree still compile?):\n" + p.stderr[-4000:])
     if cli:
-        tgt = os.path.join(ROOT, "work", "cli-target")
+        tgt = os.path.join(hd, "target", "cli")
         p = subprocess.run(["cargo", "build", "--release", "--offline", "-p", "rsass-cli",
                             "--target-dir", tgt], cwd=REPO, env=env, capture_output=True, text=True)
         if p.returncode != 0:
